@@ -982,7 +982,7 @@ func c19Rtmp2Rtsp(c *fw.Ctx, n int) {
 	for k := 0; k < n && !c.Violated(); k++ {
 		c.Sub(k)
 		mode := []string{"avc", "hevc", "hevc-enh"}[k%3]
-		audio := []string{"none", "aac-late", "aac-first"}[(k/3)%3]
+		audio := []string{"none", "aac-late", "aac-first", "g711a-late", "g711u-late", "g711a-first"}[(k/3)%6]
 		c.Eval(1)
 		c.Cell("rtmp2rtsp/%s/%s", mode, audio)
 		var vsh []byte
@@ -1009,8 +1009,18 @@ func c19Rtmp2Rtsp(c *fw.Ctx, n int) {
 				buf[x] = 0xEE
 			}
 		}
+		g711 := func(f int) []byte {
+			lead := byte(0x72)
+			if strings.HasPrefix(audio, "g711u") {
+				lead = 0x82
+			}
+			return append([]byte{lead}, gen.Tag(3, 9000+f)...)
+		}
 		if audio == "aac-first" {
 			feed(8, 0, ash)
+		}
+		if audio == "g711a-first" {
+			feed(8, 0, g711(0))
 		}
 		feed(9, 0, vsh)
 		for f := 0; f < 24; f++ {
@@ -1024,8 +1034,13 @@ func c19Rtmp2Rtsp(c *fw.Ctx, n int) {
 			if audio == "aac-late" && f == 5 {
 				feed(8, uint32(f*40), ash)
 			}
-			if audio != "none" && f > 5 {
+			if strings.HasPrefix(audio, "aac") && f > 5 {
 				feed(8, uint32(f*40), gen.AudioFrame(r, 3, 500+f, 60))
+			}
+			if strings.HasPrefix(audio, "g711") && f > 5 {
+				// no metadata names the codec (lal's own GB28181 / customize publishers send none for G.711): the first
+				// audio message is what tells
+				feed(8, uint32(f*40), g711(f))
 			}
 		}
 		if len(sdps) == 0 {
@@ -1036,6 +1051,25 @@ func c19Rtmp2Rtsp(c *fw.Ctx, n int) {
 		if err != nil {
 			j.bad("sdp-parse", "the SDP does not parse: %v\n%s", err, sdps[0])
 			return
+		}
+		if strings.HasPrefix(audio, "g711") {
+			found := false
+			for _, m := range sd.Media {
+				if m.Kind != "audio" {
+					continue
+				}
+				found = true
+				wantCodec := map[bool]string{true: "PCMU", false: "PCMA"}[strings.HasPrefix(audio, "g711u")]
+				// static payload types 0 / 8 may go without rtpmap; if one is given it must say 8000
+				if (m.Codec != "" && m.Codec != wantCodec) || (m.Clock != 0 && m.Clock != 8000) || strings.Contains(string(sdps[0]), "/-1") {
+					j.bad("sdp-g711", "%s video, %s without metadata: the SDP's audio section says codec %q clock %d, want %s/8000\n%s", mode, audio, m.Codec, m.Clock, wantCodec, sdps[0])
+					return
+				}
+			}
+			if !found {
+				j.bad("sdp-g711", "%s video, %s: the SDP has no audio section\n%s", mode, audio, sdps[0])
+				return
+			}
 		}
 		var got [][]byte
 		for _, m := range sd.Media {
